@@ -15,4 +15,5 @@ func main() {
 	fmt.Println("Misc", prog.Misc())
 	fmt.Println("More", prog.More())
 	fmt.Println("Polling", prog.Polling())
+	fmt.Println(prog.Terminating())
 }
